@@ -1692,6 +1692,8 @@ where
             invariant self.ok()
         {
             { __lv1 = match self.map.de.peek()? {
+                // Stop iteration when list elements ends
+                DeEvent::Start(e) if !self.filter.is_suitable(e, decoder)? => Ok(None),
 
                 // Stop iteration after reaching a closing tag
                 // The matching tag name is guaranteed by the reader
